@@ -22,9 +22,12 @@ reg("C39",
     assumptions=[
         "memory touching call backs: start_flash, read_mem, public_read_mem, public_checksum32, checksum32(address,size); zero-size "
         "calls touch nothing; run(address) is not a flash/read/checksum access and is only recorded (bluetoe does not check it)",
-        "content and checksum oracle only for a protocol conforming session (bootloader.md): Start Flash inside a region, data "
-        "writes that are all accepted, optionally one Flush, no other control point write and no ATT read in between; after a "
-        "rejected data write (buffer overrun) the client has lost track and only the white list oracle stays on",
+        "content and checksum oracle for a flash session: Start Flash inside a region, data writes that are all accepted, optionally "
+        "one Flush; another control point procedure in between (Get CRC, Get Version, Start, unknown opcode ...) keeps the reference "
+        "alive: bootloader.md lets it end the flash mode, bluetoe stays in flash mode for some of them - IF the next data write or "
+        "Flush is accepted it has to continue exactly at the client's position with the same checksum chain, if it is refused the "
+        "session is over (progress notifications are not predicted after such a procedure); after a rejected data write (buffer "
+        "overrun) or an ATT read the client has lost track and only the white list oracle stays on",
         "control point answers are predicted only if one procedure is outstanding at a time (bootloader.md); Start Flash answer = "
         "crc(start address) even if data was written before the notification left",
         "call backs requested by the controller (control_point_notification_call_back / data_indication_call_back) are served "
